@@ -4,7 +4,7 @@
    PARTIAL BY DESIGN (DESIGN section 4, C08): the theorems are about exact real arithmetic and about index logic;
    floating-point accuracy, LAPACK and libm are tested with stated tolerances by checks/C08.py, not proved. *)
 From Coq Require Import Reals List ZArith Bool.
-From DuneV Require Import C08_Model C08_Spec C08_Proofs C08_Proofs_Handover C08_Proofs_2x2 C08_Proofs_3x3 C08_Proofs_Eig0 C08_Proofs_Eigvec3 C08_Proofs_3x3_Full C08_Proofs_3x3_Scale.
+From DuneV Require Import Params_gen C08_Model C08_Spec C08_Proofs C08_Proofs_Handover C08_Proofs_2x2 C08_Proofs_3x3 C08_Proofs_Eig0 C08_Proofs_Eigvec3 C08_Proofs_3x3_Full C08_Proofs_3x3_Scale C08_Proofs_3x3_All C08_Proofs_Kernels.
 Import ListNotations.
 
 (* eigenvalue-only and eigenvalue+vector entry points run the same eigenvalue computation: for EVERY operation
@@ -64,6 +64,18 @@ Theorem C08_1x1_exact : forall m : R, let '(w, v) := c08_eig1 c08_R_ops m in w =
 Proof. exact P_1x1_exact. Qed.
 Print Assumptions C08_1x1_exact.
 
+(* complete characterisation for ANY non-negative threshold (absolute literal or epsilon * ||A||): never fails on symmetric input;
+   either an exact eigen-decomposition, or the identity special case was taken and the residuals A e_i - l_i e_i are at most the
+   effective threshold componentwise -- with the source's relative threshold: at most epsilon * ||A||_inf *)
+Theorem C08_2x2_any_threshold : forall rel perp thrq thrid a b d,
+  let t := c08_thr_eff rel thrid (a, b, b, d) in 0 <= t ->
+  exists vs, c08_eigenvaluesvectors2 c08_R_ops rel perp thrq thrid (a, b, b, d) = C08_Ok ((c08_l0 a b d, c08_l1 a b d), vs) /\
+    c08_evals2_ok (a, b, b, d) (c08_l0 a b d, c08_l1 a b d) /\
+    (c08_evecs2_ok (a, b, b, d) (c08_l0 a b d, c08_l1 a b d) vs \/
+     (vs = ((1, 0), (0, 1)) /\ Rabs (a - c08_l0 a b d) <= t /\ Rabs b <= t /\ Rabs (d - c08_l1 a b d) <= t)).
+Proof. exact P_2x2_any_threshold. Qed.
+Print Assumptions C08_2x2_any_threshold.
+
 (* F-C08-1: EVERY positive absolute threshold (the code has 1e-14) is refuted: there is a symmetric matrix for which the
    routine returns something that is not an eigen-decomposition ... *)
 Theorem C08_2x2_abs_threshold_refuted : forall perp thrq thrid, 0 < thrid ->
@@ -117,7 +129,7 @@ Proof. exact P_ex_sym. Qed.
 (* LAPACK failure (info <> 0) is reported as InvalidStateException, and only then *)
 Theorem C08_handover_sym_info : forall (syev : c08_syev_args -> list R * list R * Z) tag n A,
   (c08_sym_lapack 0 syev tag n A = C08_InvalidState <->
-   snd (syev (C08Syev tag true n (c08_flatten n A) n (3 * n - 1))) <> 0%Z).
+   snd (syev (c08_syev_call tag n A)) <> 0%Z).
 Proof. exact P_handover_sym_info. Qed.
 Print Assumptions C08_handover_sym_info.
 
@@ -192,9 +204,9 @@ Print Assumptions C08_3x3_eps_refuted.
    running-maximum selection of eig0 picks the row pair with the LARGEST cross product (the documented robustness rule; in
    floating point the other pairs may be pure round-off, cf. mutants/C08/m8), that length is positive, and the normalised
    cross product v satisfies (A - l I) v = 0, v.v = 1.
-   PARTIAL w.r.t. C08_3x3_exact: eig1/orthoComp (second and third vector, double eigenvalues) are not modelled, and the 3x3
-   path is tied to the code by the tolerance TESTS only (structured stream `struct3:*` of checks/C08.py). *)
-Theorem C08_3x3_eigvec_partial : forall (A : c08_mat3) (l : R),
+   (This is the eig0 lemma; the complete statements are C08_3x3_eigvec, C08_3x3_exact and C08_3x3_all below.  The 3x3 path is
+   tied to the code by the tolerance TESTS only: structured stream `struct3:*` of checks/C08.py.) *)
+Theorem C08_3x3_eig0_largest_pair : forall (A : c08_mat3) (l : R),
   c08_det3m (c08_shift3 A l) = 0 ->
   (let '(r0, r1, r2) := c08_shift3 A l in
    ~ (is_zero3 (c08_cross r0 r1) /\ is_zero3 (c08_cross r0 r2) /\ is_zero3 (c08_cross r1 r2))) ->
@@ -203,8 +215,8 @@ Theorem C08_3x3_eigvec_partial : forall (A : c08_mat3) (l : R),
   c08_mv3 (c08_shift3 A l) v = (0, 0, 0) /\ c08_dot3 v v = 1 /\
   nth imax (d0 :: d1 :: d2 :: nil) 0 = Rmax d0 (Rmax d1 d2) /\ 0 < Rmax d0 (Rmax d1 d2).
 Proof. exact P_eig0. Qed.
-Print Assumptions C08_3x3_eigvec_partial.
-Example C08_3x3_eigvec_nonvacuous : c08_det3m (c08_shift3 c08_ex_A3 (-5)) = 0 /\
+Print Assumptions C08_3x3_eig0_largest_pair.
+Example C08_3x3_eig0_nonvacuous : c08_det3m (c08_shift3 c08_ex_A3 (-5)) = 0 /\
   (let '(r0, r1, r2) := c08_shift3 c08_ex_A3 (-5) in
    ~ (is_zero3 (c08_cross r0 r1) /\ is_zero3 (c08_cross r0 r2) /\ is_zero3 (c08_cross r1 r2))) /\
   fst (c08_eig0 c08_ex_A3 (-5)) = 1%nat.
@@ -258,3 +270,103 @@ Theorem C08_3x3_scale_invariant : forall (X : Type) (core : R -> R -> R -> R -> 
   let '((e0, e1, e2), x) := c08_prescaled core a00 a01 a02 a11 a12 a22 in ((s * e0, s * e1, s * e2), x).
 Proof. exact P_3x3_scale_invariant. Qed.
 Print Assumptions C08_3x3_scale_invariant.
+
+(* ---------------------------------------------------------------------------------------------- the WHOLE 3d specialisation
+   c08_eigenvaluesvectors3 eps = pre-scaling by ||A||_inf, eigenValues3dImpl (diagonal shortcut `p1 <= eps`, Smith, sort), the
+   eigenvectors of both branches (unit vectors jointly bubble-sorted with the diagonal; eig0/eig1/cross product), joint
+   sorting of the (value, vector) pairs, eigenValues *= maxAbsElement.
+   C08_3x3_all: threshold 0: for EVERY real symmetric 3x3 matrix (diagonal or not, zero or not, any multiplicities) the result
+   exists (no division by zero) and is an orthonormal eigen-decomposition of A itself: ascending, sum = trace, all roots with
+   multiplicity, A w_i = l_i w_i, unit, mutually orthogonal. *)
+Theorem C08_3x3_all : forall a00 a01 a02 a11 a12 a22,
+  let '(ev, ows) := c08_eigenvaluesvectors3 0 a00 a01 a02 a11 a12 a22 in
+  exists ws, ows = Some ws /\ c08_decomp3 a00 a01 a02 a11 a12 a22 ev ws.
+Proof. exact P_3x3_all. Qed.
+Print Assumptions C08_3x3_all.
+Example C08_3x3_all_instance :
+  let '(ev, ows) := c08_eigenvaluesvectors3 0 1 0 2 (-5) 0 3 in exists ws, ows = Some ws /\ c08_decomp3 1 0 2 (-5) 0 3 ev ws.
+Proof. exact (P_3x3_all 1 0 2 (-5) 0 3). Qed.
+
+(* eigenvalue-only and eigenvalue+vector entry points return the same eigenvalues, for EVERY threshold *)
+Theorem C08_3x3_entrypoints_agree : forall eps a00 a01 a02 a11 a12 a22,
+  fst (c08_eigenvaluesvectors3 eps a00 a01 a02 a11 a12 a22) = c08_eigenvalues3 eps a00 a01 a02 a11 a12 a22.
+Proof. exact P_3x3_entrypoints_agree. Qed.
+Print Assumptions C08_3x3_entrypoints_agree.
+
+(* jointly sorting the (eigenvalue, eigenvector) pairs: ascending values, one of the six permutations of the PAIRS *)
+Theorem C08_3x3_joint_sort : forall (X : Type) (p0 p1 p2 : R * X),
+  let '(q0, q1, q2) := c08_bubble3 p0 p1 p2 in
+  fst q0 <= fst q1 /\ fst q1 <= fst q2 /\
+  ((q0, q1, q2) = (p0, p1, p2) \/ (q0, q1, q2) = (p0, p2, p1) \/ (q0, q1, q2) = (p1, p0, p2) \/
+   (q0, q1, q2) = (p1, p2, p0) \/ (q0, q1, q2) = (p2, p0, p1) \/ (q0, q1, q2) = (p2, p1, p0)).
+Proof. exact bubble3_spec. Qed.
+Print Assumptions C08_3x3_joint_sort.
+
+(* orthoComp: for EVERY unit vector it succeeds and returns a unit u orthogonal to evec0 (v = evec0 x u) ... *)
+Theorem C08_orthocomp : forall e, c08_dot3 e e = 1 ->
+  exists u, c08_orthocomp e = Some (u, c08_cross e u) /\ c08_dot3 u u = 1 /\ c08_dot3 e u = 0.
+Proof. exact orthocomp_ok. Qed.
+Print Assumptions C08_orthocomp.
+(* ... because u is built from a NON-DEGENERATE pair: comparing |e0| with |e1| keeps the larger one, so the squared length under
+   the square root is at least 1/2 ... *)
+Theorem C08_orthocomp_nondegenerate : forall e0 e1 e2, c08_dot3 (e0, e1, e2) (e0, e1, e2) = 1 ->
+  (Rabs e1 < Rabs e0 -> / 2 <= e0 * e0 + e2 * e2) /\ (~ Rabs e1 < Rabs e0 -> / 2 <= e1 * e1 + e2 * e2).
+Proof. exact P_orthocomp_pair. Qed.
+Print Assumptions C08_orthocomp_nondegenerate.
+(* ... whereas the flipped comparison (a seeded change, caught by the oracle as NaN eigenvectors) divides by zero for (1,0,0) *)
+Theorem C08_orthocomp_flipped_refuted : c08_dot3 (1, 0, 0) (1, 0, 0) = 1 /\ c08_orthocomp_flipped (1, 0, 0) = None.
+Proof. exact P_orthocomp_flipped_refuted. Qed.
+Print Assumptions C08_orthocomp_flipped_refuted.
+
+(* ---------------------------------------------------------------------------------------------- source constants (Params_gen.v)
+   The job characters, uplo, workspace formulas, the array the vectors are read from, and the 2x2 variant are re-read from
+   dune/common/fmatrixev.hh / dynmatrixev.hh on every run (tools/params.d/C08.py); these theorems are re-checked against them. *)
+Theorem C08_syev_call_literal : forall (T : Type) tag n (A : nat -> nat -> T),
+  c08_syev_call tag n A = C08Syev tag true n (c08_flatten n A) n (3 * n - 1).
+Proof. exact P_syev_call_literal. Qed.
+Print Assumptions C08_syev_call_literal.
+
+Theorem C08_handover_workspace : forall (T : Type) tag want n (A : nat -> nat -> T), (1 <= n)%nat ->
+  (Nat.max 1 (3 * n - 1) <= c08_sy_lwork (c08_syev_call tag n A))%nat /\
+  (Nat.max 1 (3 * n) <= c08_ge_lwork (c08_dyn_call want n A))%nat /\
+  (want = true -> (4 * n <= c08_ge_lwork (c08_dyn_call want n A))%nat) /\
+  c08_sy_lda (c08_syev_call tag n A) = n /\ c08_ge_lda (c08_dyn_call want n A) = n /\
+  c08_ge_ldvl (c08_dyn_call want n A) = n /\ c08_ge_ldvr (c08_dyn_call want n A) = n /\
+  length (c08_sy_a (c08_syev_call tag n A)) = (n * n)%nat /\ length (c08_ge_a (c08_dyn_call want n A)) = (n * n)%nat.
+Proof. exact P_workspace. Qed.
+Print Assumptions C08_handover_workspace.
+
+(* DynamicMatrixHelp::eigenValuesNonSym as the source NOW writes it returns non-zero RIGHT eigenvectors of A (all n) *)
+Theorem C08_handover_nonsym_source : forall n A geev evs V,
+  c08_geev_contract (c08_geev_args_fix n A) (geev (c08_geev_args_fix n A)) ->
+  c08_nonsym_dyn_src 0 geev true n A = C08_LOk (evs, Some V) ->
+  length evs = n /\
+  forall i, (i < n)%nat -> snd (nth i evs (0, 0)) = 0 ->
+    c08_right_eig n A (fst (nth i evs (0, 0))) (c08_row_of V i) /\ c08_nonzero n (c08_row_of V i).
+Proof. exact P_handover_nonsym_src. Qed.
+Print Assumptions C08_handover_nonsym_source.
+
+Theorem C08_handover_nonsym_info : forall (geev : c08_geev_args -> c08_geev_out (T:=R)) want n A,
+  (c08_nonsym_dyn_src 0 geev want n A = C08_InvalidState <-> snd (geev (c08_dyn_call want n A)) <> 0%Z) /\
+  (c08_nonsym_fm geev n A = C08_InvalidState <->
+   snd (geev (C08Geev c08_param_fm_jobvl_v c08_param_fm_jobvr_v n (c08_flatten n A) n n n (c08_param_fm_lwork_mul * n))) <> 0%Z).
+Proof. exact P_handover_nonsym_info. Qed.
+Print Assumptions C08_handover_nonsym_info.
+
+Theorem C08_2x2_source_scale_invariant : forall thrq thrid a b d s, 0 < s -> 0 <= thrid ->
+  c08_thr_eff c08_param_id_rel thrid (a, b, b, d) < c08_dev2 (a, b, b, d) (c08_l0 a b d) \/ c08_dev2 (a, b, b, d) (c08_l0 a b d) = 0 ->
+  exists r', c08_eigenvaluesvectors2 c08_R_ops c08_param_id_rel c08_param_perp thrq thrid (c08_scale2 s (a, b, b, d)) = C08_Ok r' /\
+             fst r' = (s * c08_l0 a b d, s * c08_l1 a b d) /\ c08_decomp2 (c08_scale2 s (a, b, b, d)) r'.
+Proof. exact P_2x2_source_scale. Qed.
+Print Assumptions C08_2x2_source_scale_invariant.
+
+(* ---------------------------------------------------------------------------------------------- executable 3x3 kernels
+   The operation-record kernels c08g_eig0 / c08g_orthocomp / c08g_eig1 of C08_Model.v are run at binary64 and diffed bit for bit
+   against Impl::eig0 / orthoComp / eig1 on every check run (stream k3).  Instantiated at the reals they ARE the functions the
+   C08_3x3_* theorems are about (a guarded division returning "no value" corresponds to None): *)
+Theorem C08_3x3_kernels_are_the_model :
+  (forall e, c08g_orthocomp c08_R_ops e = c08_res_of_option (c08_orthocomp e)) /\
+  (forall A e l1, c08g_eig1 c08_R_ops A e l1 = c08_res_of_option (c08_eig1v A e l1)) /\
+  (forall A l, let '(d0, d1, d2) := c08_eig0_d A l in 0 < Rmax d0 (Rmax d1 d2) -> c08g_eig0 c08_R_ops A l = C08_Ok (c08_eig0 A l)).
+Proof. exact (conj K_orthocomp (conj K_eig1 K_eig0)). Qed.
+Print Assumptions C08_3x3_kernels_are_the_model.
